@@ -80,3 +80,29 @@ fn c14_idle_sign_untouched_by_chunk_count() {
     assert_eq!(sign.state(), State::ReadyToReset);
     assert_eq!(sign.pages().len(), before, "stored pages of an idle sign changed by an unaddressed message");
 }
+
+// C08: a configuration block whose family/id bytes name a supported type but whose size fields say otherwise made the
+// virtual sign record that type together with the other size. configure_if_needed trusts a ready sign that records the
+// requested type, and the pages sent afterwards were silently dropped as malformed although send_pages returned Ok.
+#[test]
+fn c08_recorded_type_agrees_with_recorded_size() {
+    let mut sign = VirtualSign::new(Address(3), PageFlipStyle::Manual);
+    // family 04, id 47 (Max3000Front112x16) but panel widths 42+CE+F3+EC = 751 and height 0x30 = 48
+    let cfg = [0x04, 0x47, 0x49, 0xF7, 0x30, 0x42, 0xCE, 0xF3, 0xEC, 0x91, 0xEA, 0xD5, 0xAC, 0x8D, 0x2E, 0x60];
+    sign.process_message(&Message::RequestOperation(Address(3), Operation::ReceiveConfig));
+    sign.process_message(&Message::SendData(Offset(0), Data::try_new(cfg.to_vec()).unwrap()));
+    sign.process_message(&Message::DataChunksSent(ChunkCount(1)));
+    assert_eq!(sign.state(), State::ConfigReceived);
+    if let Some(t) = sign.sign_type() {
+        // whoever trusts the recorded type must be able to send pages of that type's size
+        sign.process_message(&Message::RequestOperation(Address(3), Operation::ReceivePixels));
+        let page = Page::new(PageId(1), t.dimensions().0, t.dimensions().1);
+        let mut n = 0u16;
+        for (i, chunk) in page.as_bytes().chunks(16).enumerate() {
+            sign.process_message(&Message::SendData(Offset((i * 16) as u16), Data::try_new(chunk.to_vec()).unwrap()));
+            n += 1;
+        }
+        sign.process_message(&Message::DataChunksSent(ChunkCount(n)));
+        assert_eq!(sign.pages().len(), 1, "a page of the recorded type's size was dropped");
+    }
+}
